@@ -42,6 +42,8 @@ impl<'a> StreamingScan<'a> {
         )
         .await
         .ok_or(QueryExecutionError::Aborted)?;
+        #[cfg(feature = "verif-hooks")]
+        crate::verif_hooks::point("rd.plan_built", 0);
 
         // Apply metadata if provided
         if let Some(meta) = metadata {
